@@ -30,6 +30,7 @@ type LV struct {
 	idx   []Term
 	addr  Term // lvObject
 	inner *LV  // lvArrElem: the array location
+	sort  string // non-empty: SMT sort override (ghost maps)
 	elemI Term // lvArrElem: index
 }
 
@@ -430,6 +431,13 @@ func isPkgLevel(obj types.Object) bool {
 func (fv *FV) globalVar(e *Env, v *types.Var) Value {
 	name := "g$" + sanitize(shortQual(v.Pkg())+"."+v.Name())
 	t := v.Type()
+	if fv.eng.ghostVars[v] {
+		if _, isMap := t.Underlying().(*types.Map); isMap {
+			return Value{K: kScalar, T: fv.loadComp(e, "G$"+sanitize(shortQual(v.Pkg())+"."+v.Name()), ghostSort(t), tNull), Type: t}
+		}
+		_, srt := sortOf(t)
+		return Value{K: kScalar, T: fv.loadComp(e, "G$"+sanitize(shortQual(v.Pkg())+"."+v.Name()), srt, tNull), Type: t}
+	}
 	if isObjectType(t) {
 		c := fv.s.declConst(name, sRef)
 		if !fv.globalSeen[name] {
@@ -459,6 +467,45 @@ func (fv *FV) globalVar(e *Env, v *types.Var) Value {
 	}
 	_ = k
 	return fv.loadCell(e, "G$"+sanitize(shortQual(v.Pkg())+"."+v.Name()), t, "", tNull)
+}
+
+// ghostSort: ghost variables of map type are total SMT arrays.
+func ghostSort(t types.Type) string {
+	if m, ok := t.Underlying().(*types.Map); ok {
+		return arrSort(elemSortOf(m.Key()), ghostSort(m.Elem()))
+	}
+	_, s := sortOf(t)
+	return s
+}
+
+// isGhostMapExpr reports whether x denotes a ghost (total) map.
+func (fv *FV) isGhostMapExpr(x ast.Expr) bool {
+	x = ast.Unparen(x)
+	t := fv.typeOf(x)
+	if t == nil {
+		return false
+	}
+	if _, ok := t.Underlying().(*types.Map); !ok {
+		return false
+	}
+	switch y := x.(type) {
+	case *ast.Ident:
+		v, ok := fv.info.ObjectOf(y).(*types.Var)
+		return ok && fv.eng.ghostVars[v]
+	case *ast.SelectorExpr:
+		v, ok := fv.info.ObjectOf(y.Sel).(*types.Var)
+		return ok && fv.eng.ghostVars[v]
+	case *ast.IndexExpr:
+		return fv.isGhostMapExpr(y.X)
+	case *ast.CallExpr:
+		if fn, _, _ := fv.calleeOf(y); fn != nil && (fn.Name() == "gh_old" || fn.Name() == "gh_upd") && len(y.Args) > 0 {
+			return fv.isGhostMapExpr(y.Args[0])
+		}
+		if fn, _, _ := fv.calleeOf(y); fn != nil && fv.eng.isGhostFunc(fn) {
+			return true
+		}
+	}
+	return false
 }
 
 // ---------------------------------------------------------------------------
@@ -885,6 +932,11 @@ func (fv *FV) index(e *Env, x *ast.IndexExpr) Value {
 		return fv.expr(e, x.X)
 	}
 	bt := fv.typeOf(x.X)
+	if bt != nil && fv.isGhostMapExpr(x.X) {
+		m := fv.expr(e, x.X)
+		k := fv.expr(e, x.Index)
+		return Value{K: kScalar, T: sel(m.T, k.T), Type: fv.typeOf(x)}
+	}
 	if bt != nil {
 		if _, isMap := bt.Underlying().(*types.Map); isMap {
 			m := fv.expr(e, x.X)
@@ -1024,6 +1076,9 @@ func (fv *FV) lvalue(e *Env, x ast.Expr) LV {
 		}
 		obj := fv.info.ObjectOf(x)
 		if v, ok := obj.(*types.Var); ok {
+			if isPkgLevel(v) && fv.eng.ghostVars[v] {
+				return LV{kind: lvCell, comp: "G$" + sanitize(shortQual(v.Pkg())+"."+v.Name()), idx: []Term{tNull}, typ: v.Type(), sort: ghostSort(v.Type())}
+			}
 			if isPkgLevel(v) {
 				if isObjectType(v.Type()) {
 					return LV{kind: lvObject, addr: fv.globalVar(e, v).T, typ: v.Type()}
@@ -1151,6 +1206,9 @@ func (fv *FV) load(e *Env, lv LV) Value {
 			}
 			return v
 		}
+		if lv.sort != "" {
+			return Value{K: kScalar, T: fv.loadComp(e, lv.comp, lv.sort, lv.idx...), Type: lv.typ}
+		}
 		return fv.loadCell(e, lv.comp, lv.typ, "", lv.idx...)
 	case lvObject:
 		return Value{K: kScalar, T: lv.addr, Type: lv.typ}
@@ -1198,6 +1256,10 @@ func (fv *FV) storeLV(e *Env, lv LV, v Value) {
 	case lvCell:
 		if lv.inner != nil && strings.HasPrefix(lv.comp, "MV$") {
 			fv.mapStore(e, lv.idx[0], lv.inner.typ.Underlying().(*types.Map), lv.idx[1], v)
+			return
+		}
+		if lv.sort != "" {
+			fv.storeComp(e, lv.comp, lv.sort, v.T, lv.idx...)
 			return
 		}
 		fv.storeCell(e, lv.comp, lv.typ, "", v, lv.idx...)
